@@ -281,11 +281,12 @@ func shiftSelector(s string) (string, string) {
 	for i := 0; i < len(s); i++ {
 		switch s[i] {
 		case '\\':
-			esc = true
+			esc = !esc
 		case '/':
 			if !esc {
 				return s[:i], s[i+1:]
 			}
+			esc = false
 		default:
 			esc = false
 		}
